@@ -45,7 +45,10 @@ type site struct {
 // operands that are compared for (in)equality only and are not integers (strings, byte slices): `a != b`
 // becomes the Boolean parameter ne_a_b / `a == b` eq_a_b. Per site, by flattened name.
 var opaque = map[string]*regexp.Regexp{
-	"validateBasic": regexp.MustCompile(`ChainID|chainID`),
+	"validateBasic":         regexp.MustCompile(`ChainID|chainID`),
+	"privval_save":          regexp.MustCompile(`filePath`),
+	"opCreate_returnsData":  regexp.MustCompile(`suberr`),
+	"opCreate2_returnsData": regexp.MustCompile(`suberr`),
 }
 var curOpaque *regexp.Regexp
 
@@ -53,6 +56,11 @@ var sites = []site{
 	// ---- vote accounting thresholds (C15, C01, C02, C13, C14)
 	{"voteSet_quorum", "gemmill/types/vote_set.go", "addVerifiedVote", "assign", `^quorum$`, "", "C15 C01"},
 	{"voteSet_crossed", "gemmill/types/vote_set.go", "addVerifiedVote", "if", `origSum\W+quorum`, "", "C15 C01"},
+	{"voteSet_copy_cond", "gemmill/types/vote_set.go", "addVerifiedVote", "if", `^vote\W+nil`, "", "C02 C15"},
+	{"makePartSet", "gemmill/types/block.go", "MakePartSet", "return", `NewPartSetFromData`, "", "C17"},
+	{"opCreate_returnsData", "eth/core/vm/instructions.go", "opCreate", "if", `^suberr\W+(errExecutionReverted|nil)$`, "", "C10 C09"},
+	{"opCreate2_returnsData", "eth/core/vm/instructions.go", "opCreate2", "tree", "", "", "C10 C09"},
+	{"privval_save", "gemmill/types/priv_validator.go", "save", "tree", "", `WriteFileAtomic`, "C03"},
 	{"blockID_equals", "gemmill/types/block.go", "Equals", "return", `bytes\.Equal\(blockID\.Hash`, "", "C13 C15 C02"},
 	{"partSetHeader_equals", "gemmill/types/part_set.go", "Equals", "return", `psh\.Total`, "", "C13 C15 C02 C17"},
 	{"valset_update_total", "gemmill/types/validator_set.go", "Update", "assign", `^valSet\.totalVotingPower$`, "", "C15 C16 C14"},
